@@ -404,6 +404,8 @@ struct Chunk<'a> {
     u: &'a Universe,
     re: ReManager,
     cache: RefCache,
+    /// the term of the previous program of the chunk (abandoned traversals on it precede the next program's checks)
+    prev: Option<usize>,
 }
 
 impl Engine for RegexEngine {
@@ -534,7 +536,7 @@ fn run_chunk(kind: Kind, tier: Tier, fi: usize, f: &dyn Family, lo: usize, hi: u
         .stack_size(256 << 20)
         .spawn(move || {
             let mut rep = Report::new();
-            let mut ch = Chunk { kind, u: &u, re: ReManager::new(), cache: RefCache::new(u.clone()) };
+            let mut ch = Chunk { kind, u: &u, re: ReManager::new(), cache: RefCache::new(u.clone()), prev: None };
             for (i, p, shallow) in &progs {
                 beat();
                 // the reference DFA is machinery: a slow reference must never look like a hang of the code under test
@@ -564,7 +566,7 @@ fn run_chunk(kind: Kind, tier: Tier, fi: usize, f: &dyn Family, lo: usize, hi: u
                         std::thread::Builder::new()
                             .stack_size(256 << 20)
                             .spawn(move || {
-                                let mut c2 = Chunk { kind, u: &u2, re: ReManager::new(), cache: RefCache::new(u2.clone()) };
+                                let mut c2 = Chunk { kind, u: &u2, re: ReManager::new(), cache: RefCache::new(u2.clone()), prev: None };
                                 let mut m2 = vec![];
                                 let mut r2 = Report::new();
                                 let rf2 = c2.cache.dfa(&p2);
@@ -1060,6 +1062,16 @@ fn check_c18(ch: &mut Chunk<'_>, t: RegLan, rf: &Dfa, rep: &mut Report) -> Vec<S
 fn check_c19(ch: &mut Chunk<'_>, t: RegLan, rep: &mut Report) -> Vec<String> {
     let u = ch.u;
     let mut msgs = vec![];
+    // traversals of the previous program's term that are abandoned half-way (an iterator dropped after two items, an
+    // emptiness search that stops at the first nullable derivative, a start_char query) must leave nothing behind
+    if let Some(p) = ch.prev {
+        let pt = as_re(p);
+        let _ = ch.re.iter_derivatives(pt).take(2).count();
+        let _ = ch.re.is_empty_re(pt);
+        let _ = ch.re.start_char(pt, u.reps[0]);
+        rep.inc("abandoned_traversals_before_case");
+    }
+    ch.prev = Some(ptr(t));
     // iter_derivatives with a cap (non-termination would otherwise hang: the watchdog also covers it)
     let mut ds: Vec<usize> = vec![];
     let mut capped = false;
